@@ -199,6 +199,8 @@ def vol_accounting(F, S):
     if step is None:
         later = [t for (nd, t) in offs if "('const', 0)" not in repr(lvals[id(nd)])]
         step = later[0] if later else None
+    if step is not None and step[0] == "var" and step in locals_init:
+        step = locals_init[step]        # (a local of its own per block, initialised with the step expression)
     inst = VOL + "::PrepareHeader#block-step"
     req = "next block offset = (previous offset + previous size + 8 + 3) & ~3, matching the 8-byte header + size + ((-size) & 3) the writer emits"
     good = False
